@@ -18,6 +18,10 @@ pub enum Role {
     Receiver,
     SharedSecretEncap,
     SharedSecretDecap,
+    /// the four single-shot functions build, use and drop a context internally: ledger only.
+    /// `ops` selects the form: 0 allocating, 1 in-place detached, 2 (open only) a forged ciphertext
+    SingleShotSeal,
+    SingleShotOpen,
 }
 
 #[derive(Clone, Debug, Serialize, Deserialize)]
@@ -48,6 +52,9 @@ fn check(case: &Case, obs: &mut Obs) -> Verdict {
     obs.label(format!("role:{:?}", case.role));
     let keys = sess.keys();
     let auth = sess.mode & 2 != 0;
+    if matches!(case.role, Role::SingleShotSeal | Role::SingleShotOpen) {
+        return single_shot(case, obs);
+    }
     // an honest encapsulated key for the receiver-side roles, produced before the ledger snapshot
     let enc = match case.role {
         Role::Receiver | Role::SharedSecretDecap => match honest_sender(d, sess, &keys) {
@@ -73,6 +80,7 @@ fn check(case: &Case, obs: &mut Obs) -> Verdict {
         Role::Receiver => d.probe_drop_receiver(&sess.mode_r(&keys), &keys.sk_r, &enc, &sess.info, plan),
         Role::SharedSecretEncap => d.probe_drop_shared_secret(&keys.pk_r, pair, &mut rng, plan),
         Role::SharedSecretDecap => d.probe_drop_shared_secret_decap(&keys.sk_r, if auth { Some(&keys.pk_s[..]) } else { None }, &enc, plan),
+        Role::SingleShotSeal | Role::SingleShotOpen => unreachable!(),
     };
     let after_ledger = suite::ledger();
     let img = match img {
@@ -188,11 +196,93 @@ fn check(case: &Case, obs: &mut Obs) -> Verdict {
                 );
             }
         }
+        Role::SingleShotSeal | Role::SingleShotOpen => {}
         Role::SharedSecretEncap | Role::SharedSecretDecap => {
             if drops(3) < 1 {
                 return Verdict::fail("C16/ledger/SharedSecret/no-wiping-drop", format!("{:?} of {}: dropping a shared secret recorded no wiping drop", case.role, sess.suite.label()));
             }
         }
+    }
+    Verdict::Pass
+}
+
+/// Single-shot sealing / opening derives a key schedule, uses it once and drops everything before it
+/// returns: over the call the ledger must show at least one wiping drop of the temporary AEAD key
+/// buffer, of a nonce and of the KEM shared secret, and no drop that left non-zero bytes. (The
+/// exporter secret is not demanded here: a single-shot call can never export.)
+fn single_shot(case: &Case, obs: &mut Obs) -> Verdict {
+    let sess = &case.sess;
+    if !sess.suite.aead.sealing() {
+        return Verdict::skip("single-shot needs a sealing AEAD");
+    }
+    let d = dsuite(sess);
+    let keys = sess.keys();
+    let form = case.ops % 3;
+    obs.label(format!("single-shot-form:{}", form));
+    let pt = b"single-shot plaintext, a little longer than one block of the cipher".to_vec();
+    let aad = b"aad".to_vec();
+    // material for the open side is produced before the ledger snapshot
+    let (enc, mut ct) = match case.role {
+        Role::SingleShotOpen => {
+            let mut rng = ScriptRng::new(&sess.stream);
+            match d.single_shot_seal(&sess.mode_s(&keys), &keys.pk_r, &sess.info, &pt, &aad, &mut rng) {
+                Ok(x) => x,
+                Err(f) => return construct_skip("single_shot_seal", &f),
+            }
+        }
+        _ => (vec![], vec![]),
+    };
+    if form == 2 && !ct.is_empty() {
+        ct[0] ^= 1;
+    }
+    let before = suite::ledger();
+    let res: Result<(), Fail> = match (case.role, form) {
+        (Role::SingleShotSeal, 1) => {
+            let mut rng = ScriptRng::new(&sess.stream);
+            let mut buf = pt.clone();
+            d.single_shot_seal_in_place(&sess.mode_s(&keys), &keys.pk_r, &sess.info, &mut buf, &aad, &mut rng).map(|_| ())
+        }
+        (Role::SingleShotSeal, _) => {
+            let mut rng = ScriptRng::new(&sess.stream);
+            d.single_shot_seal(&sess.mode_s(&keys), &keys.pk_r, &sess.info, &pt, &aad, &mut rng).map(|_| ())
+        }
+        (_, 1) if ct.len() >= 16 => {
+            let (body, tag) = ct.split_at(ct.len() - 16);
+            let mut buf = body.to_vec();
+            d.single_shot_open_in_place(&sess.mode_r(&keys), &keys.sk_r, &enc, &sess.info, &mut buf, &aad, tag).map(|_| ())
+        }
+        _ => d.single_shot_open(&sess.mode_r(&keys), &keys.sk_r, &enc, &sess.info, &ct, &aad).map(|_| ()),
+    };
+    let after = suite::ledger();
+    match (&res, form) {
+        (Ok(()), 2) if case.role == Role::SingleShotOpen => return Verdict::skip("forged ciphertext accepted (C06's question)"),
+        (Err(Fail::Hpke(hpke::HpkeError::OpenError)), 2) if case.role == Role::SingleShotOpen => {}
+        (Ok(()), _) => {}
+        (Err(f), _) => return construct_skip("single-shot call", f),
+    }
+    obs.nontrivial = true;
+    for k in 0..4 {
+        let dirty = after[k].1 - before[k].1;
+        obs.inner_checks += 1;
+        if dirty != 0 {
+            return Verdict::fail(
+                format!("C16/ledger/{}/dirty-drop", LEDGER_NAMES[k]),
+                format!("{:?} (form {}) of {} mode {}: {} {} buffer(s) were dropped while still holding non-zero bytes", case.role, form, sess.suite.label(), sess.mode, dirty, LEDGER_NAMES[k]),
+            );
+        }
+    }
+    let drops = |k: usize| after[k].0 - before[k].0;
+    if drops(0) < 1 {
+        return Verdict::fail(
+            "C16/ledger/AeadKey/no-wiping-drop",
+            format!("{:?} (form {}) of {} mode {}: the call derived a key schedule but no AEAD key buffer went through the wiping Drop before it returned", case.role, form, sess.suite.label(), sess.mode),
+        );
+    }
+    if drops(1) < 1 || drops(3) < 1 {
+        return Verdict::fail(
+            "C16/ledger/missing-wiping-drop",
+            format!("{:?} (form {}) of {} mode {}: wiping drops recorded: nonce {}, shared secret {} (each must be >= 1)", case.role, form, sess.suite.label(), sess.mode, drops(1), drops(3)),
+        );
     }
     Verdict::Pass
 }
@@ -257,7 +347,7 @@ impl Property for P {
     fn rule(&self) -> String {
         "Generated: (suite of 48, mode, session inputs, role in {sender context, receiver context, shared secret from encap, shared secret from decap}, 0..=2 operations on the context before the drop, drop either directly or while the thread unwinds from a caught panic); swept: all 48 suites x 4 modes x 4 roles, contexts also after one operation, and every suite once with a drop during unwinding. \
          Oracle (memory image): the value is moved into a pattern-filled Box<MaybeUninit<_>>; base nonce, exporter secret (read through the read-only hook accessors) and the shared secret (public field) must be found BY VALUE in the slot before drop_in_place (otherwise the case is skipped as not observable) and be absent afterwards with zero bytes at those offsets. \
-         A copy of a secret that is present after the drop at an offset where the fresh value did not have it was written by an operation and is reported; copies already present in the fresh value outside the live field (stale stack bytes inside uninitialised union storage) are recorded as an observation only. Oracle (ledger hook, single-threaded run): per context lifetime >=1 wiping drop of the temporary AEAD key buffer, of a nonce, the exporter secret and the shared secret, and zero drops that left non-zero bytes. \
+         A copy of a secret that is present after the drop at an offset where the fresh value did not have it was written by an operation and is reported; copies already present in the fresh value outside the live field (stale stack bytes inside uninitialised union storage) are recorded as an observation only. The four single-shot functions (allocating, in-place detached, and opening a forged ciphertext) are judged by the ledger alone over the call: >=1 wiping drop of the AEAD key buffer, a nonce and the shared secret, zero dirty drops. Oracle (ledger hook, single-threaded run): per context lifetime >=1 wiping drop of the temporary AEAD key buffer, of a nonce, the exporter secret and the shared secret, and zero drops that left non-zero bytes. \
          A constant-XOR-masked copy of a secret found after the drop is reported too (a keyed HMAC object kept in the context). Extra phase: probes/c16 is built in release mode WITHOUT the hook cfg and checks, for 4 suites x 2 modes x 2 roles, that the freed block of a dropped Box<context> no longer holds the secrets (with a control object that shows the observer works in that build). Non-trivial: cases in which every secret was located before the drop."
             .into()
     }
@@ -272,7 +362,7 @@ impl Property for P {
         crate::refmodel::selfcheck::oracle_selfcheck(16).map(|_| vec![])
     }
     fn strategy(&self, _tier: Tier) -> BoxedStrategy<Case> {
-        (gen::session_any(), proptest::sample::select(vec![Role::Sender, Role::Receiver, Role::SharedSecretEncap, Role::SharedSecretDecap]), 0u8..3, prop::bool::weighted(0.25))
+        (gen::session_any(), proptest::sample::select(vec![Role::Sender, Role::Receiver, Role::SharedSecretEncap, Role::SharedSecretDecap, Role::SingleShotSeal, Role::SingleShotOpen]), 0u8..3, prop::bool::weighted(0.25))
             .prop_map(|(sess, role, ops, unwinding)| Case { sess, role, ops, unwinding })
             .boxed()
     }
@@ -294,7 +384,14 @@ impl Property for P {
                 }
             }
         }
-        vec![("suite_x_mode_x_role".into(), v)]
+        let mut ss = Vec::new();
+        for (s, m) in gen::all_cells(&Suite::sealing36()) {
+            for form in 0..3u8 {
+                ss.push(Case { sess: gen::cell_session(s, m, 161), role: Role::SingleShotSeal, ops: form % 2, unwinding: false });
+                ss.push(Case { sess: gen::cell_session(s, m, 161), role: Role::SingleShotOpen, ops: form, unwinding: false });
+            }
+        }
+        vec![("suite_x_mode_x_role".into(), v), ("single_shot_forms_x_sealing_suites_x_modes".into(), ss)]
     }
     fn check(&self, case: &Case, obs: &mut Obs) -> Verdict {
         check(case, obs)
